@@ -50,11 +50,12 @@ def to_ast(e, ids):
     raise ValueError(e)
 
 
-def prog_record(pid, evals, cfg=None):
+def prog_record(pid, evals, cfg=None, modes=None):
     ids = Ids()
     c = {"tro": True, "budget": 0, "cancel": 0, "noctx": 0, "maxphys": 25000, "maxtail": 1000000, "maxnest": 100000, "maxmacro": 1000}
     c.update(cfg or {})
-    return {"id": pid, "cfg": c, "evals": [[to_ast(f, ids) for f in forms] for forms in evals]}
+    return {"id": pid, "cfg": c, "evals": [[to_ast(f, ids) for f in forms] for forms in evals],
+            "modes": list(modes) if modes else ["load"] * len(evals)}
 
 
 def driver_cfg(cfg):
@@ -165,10 +166,22 @@ def compare_eval(me, re_, check_steps=True, check_frames=True):
     Returns None or a description of the first difference."""
     mv, rv = nm(me["v"]), nr(re_["v"])
     mp, rp = me["probes"], (re_.get("probes") or [])
+    canon = {}
+
+    def cid(eid):       # error identity: model error ids numbered by first sight, like the driver numbers pointers
+        if eid == 0:
+            return 0
+        if eid not in canon:
+            canon[eid] = len(canon) + 1
+        return canon[eid]
     for j, (a, b) in enumerate(zip(mp, rp)):
         ta, tb = tuple(nm(x) for x in a["tag"]), tuple(nr(x) for x in b["tag"])
+        if len(ta) == 2 and ta[0] == ("sym", "capture", True):
+            ta = (ta[0], ("int", cid(ta[1][1])))
         if not veq(ta, tb):
             return "probe %d tag: model %r real %r" % (j, ta, tb)
+        if b.get("capture"):
+            continue
         if check_frames and frames_m(a["frames"]) != frames_r(b["frames"]):
             return "probe %d frames: model %r real %r" % (j, frames_m(a["frames"]), frames_r(b["frames"]))
         if check_steps and a["steps"] != b["steps"]:
@@ -181,6 +194,12 @@ def compare_eval(me, re_, check_steps=True, check_frames=True):
         return "probe count: model %d real %d" % (len(mp), len(rp))
     if not veq(mv, rv):
         return "value: model %r real %r" % (mv, rv)
+    if me["v"]["t"] == "err" and "errid" in re_:
+        if cid(me["v"]["n"]) != re_["errid"]:
+            return "error identity: the model returns error #%d (numbered by first sight), the real run returns a different object (#%d)" % (cid(me["v"]["n"]), re_["errid"])
+        md, rd = tuple(nm(x) for x in me["v"]["c"]), tuple(nr(x) for x in (re_.get("data") or []))
+        if not veq(md, rd):
+            return "error data: model %r real %r" % (md, rd)
     if check_steps and me["steps"] != re_["steps"]:
         return "final steps: model %d real %d" % (me["steps"], re_["steps"])
     rest = re_["rest"]
